@@ -190,9 +190,9 @@ Print Assumptions C14_shipped_art_sonority_total.
 
 (* prosodic_string on tokens: one symbol per token (the contract the aligners index by) *)
 Theorem C14_prosodic_string_tokens_length :
-  forall (art : token -> option token) (is_stress is_diac : char -> bool) (m : omode)
+  forall (art : token -> option token) (is_stress is_diac : char -> bool) (cldf : bool) (m : omode)
          (toks : list token) (s : list Z),
-    prosodic_string_tokens art is_stress is_diac m toks = Ok s -> length s = length toks.
+    prosodic_string_tokens art is_stress is_diac cldf m toks = Ok s -> length s = length toks.
 Proof. exact prosodic_string_tokens_length. Qed.
 Print Assumptions C14_prosodic_string_tokens_length.
 
@@ -217,12 +217,12 @@ Print Assumptions C14_prosodic_weights_of_prostring.
    sonority profile, the prosodic string and the prosodic weights all exist and have exactly one
    element per token (what the aligners rely on when they index them by token position) *)
 Theorem C14_shipped_pipeline_lengths :
-  forall tbl (is_stress is_diac : char -> bool) (toks cls : list token),
+  forall tbl (is_stress is_diac : char -> bool) (cldf : bool) (toks cls : list token),
     In tbl sc_art_models ->
-    tokens2class (assoc_find tbl) is_stress is_diac false toks = Ok cls ->
+    tokens2class (assoc_find tbl) is_stress is_diac cldf toks = Ok cls ->
     exists l s ws,
-      sonority (assoc_find tbl) is_stress is_diac false toks = Ok l /\
-      prosodic_string_tokens (assoc_find tbl) is_stress is_diac OTrue toks = Ok s /\
+      sonority (assoc_find tbl) is_stress is_diac cldf toks = Ok l /\
+      prosodic_string_tokens (assoc_find tbl) is_stress is_diac cldf OTrue toks = Ok s /\
       prosodic_weights [] s = Ok ws /\
       length cls = length toks /\ length l = length toks /\ length s = length toks /\
       length ws = length toks.
@@ -330,3 +330,15 @@ Theorem C14_checker_argument_unchanged :
   forall before after : list token, unchangedb before after = true <-> before = after.
 Proof. exact unchangedb_spec. Qed.
 Print Assumptions C14_checker_argument_unchanged.
+
+(* the length checker applied to every step of a history of calls in one process (different
+   segmentations of the same characters, different cldf settings, varied order) *)
+Theorem C14_checker_history_step :
+  forall (p : pstep) (l : list Z),
+    ps_son p = Ok l ->
+    (pstep_lenb p = true <->
+     (length l = length (ps_toks p) /\
+      (exists s, ps_out p = Ok s /\ length s = length (ps_toks p)) /\
+      (exists w, ps_weights p = Ok w /\ length w = length (ps_toks p)))).
+Proof. exact pstep_lenb_spec. Qed.
+Print Assumptions C14_checker_history_step.
